@@ -76,6 +76,12 @@ _mk("C16", "C16: node coverage (both element kinds, repeat and end tokens, one n
     "sibling agreement between accumulate and emit loops (conjunct sets modulo loop-variable renaming), control dependence of add_edge sites, provenance of the normalised list")
 _mk("C17", "C17: both element kinds dispatched, one node per atom of the token's own fragment with that atom's attributes, counter/offset lockstep, one static edge per bond with its order, every non-static edge control-dependent on is_compatible of exactly its two endpoint descriptors with their order and exactly one weight of the right provenance, endpoints use their own token's offset, transition-list alignment over the full descriptor list, no edge leaves an end group, targets of growth / termination / transition edges of the right kind. Completeness of edges for all molecules is NOT decided.",
     "control dependence and provenance of add_edge sites, sibling agreement over the three edge families, lockstep bookkeeping by statement order and CFG reachability")
+_mk("C18", "C18: every node id obtained from _add_node outside the static completion flows into _fill_static_edges (4 sites; the completion adds the whole residue and every static bond), every non-static bond joins the edge list's owner with a node created from the selected edge's target and carries the selected edge's order (3 sites), all picks and the draw use self.rng with weights divided by their sum, to_mol adds one atom per node and one bond per edge with its order. Termination, tree-ness and sanitisation are NOT decided.",
+    "def-use flow (typestate bare -> completed) with caller/callee summaries, provenance equality of selected-edge fields, rng receiver census")
+_mk("C19", "C19 (accounting structure only): masses are accumulated per element only for plain tokens and repeat units (cross-check with the generator's law), the final log-probability adds log prob_mw(interval accumulator) for exactly the stochastic elements and only for fully explored matches without open atoms, start probabilities are 1 / normalised end-group weights and are used as initial probabilities, interval = cdf(value) − cdf(previous). Equality of the numbers, the ensemble sum and atom-order invariance are NOT decided.",
+    "control dependence of accumulation sites on element / token kind, provenance of the product terms, def-use order in the interval accumulator")
+_mk("C20", "C20: argument-role dataflow of the force-field cache (constructor roles, key pairs, both names in the key), readers' roles, partial molecules refused before typing, hydrogens added, dedicated error built from the partial dictionary with the molecule attached and re-raised, one parameter set per matched atom, typing and look-ups are read-only on the assigner (effect analysis), None → bundled files shipped as package data. Element-consistent masses and numbering independence are NOT decided.",
+    "argument-role dataflow through module variables, CFG dominance of guards, inter-procedural effect analysis, package-data census")
 
 NOT_APPLICABLE = {}
 for _i in range(1, 21):
